@@ -1,5 +1,7 @@
 """C06 C07 C08 C09 C10: the mode x function effect matrix, FS/process surfaces, path provenance,
 verify guards, needed-mode write gate, clean tolerances."""
+import re
+
 import core as C
 import tables as T
 from common import *  # noqa
@@ -747,9 +749,12 @@ def r08_2h(ctx):
 
 @rule("C08", "R08.3", floor=1)
 def r08_3(ctx):
+    """a generated file is only read after the file that generates it was built in this run: include/after targets with a .txtpp source
+    are recorded as dependencies before the second pass and read only in it (= C02 R02.2 / R02.3 / R02.10)"""
     import rules_sched
     rules_sched.r02_2(ctx)
     rules_sched.r02_3(ctx)
+    rules_sched.r02_10(ctx)
 
 
 # =====================================================================================  C09
@@ -997,3 +1002,22 @@ def clap_arg_short(binp, arg_id):
                     cur = nxt
                 return "none"
     return "arg-not-found"
+
+
+TIME_APIS = re.compile(r"^(std::fs::Metadata::(modified|accessed|created)|std::time::SystemTime::(now|elapsed|duration_since)|std::fs::File::set_times"
+                       r"|std::fs::File::set_modified|std::fs::FileTimes::.*)$")
+
+
+@rule("C08", "R08.4", floor=1)
+def r08_4(ctx):
+    """no decision depends on file timestamps or the wall clock: the library never asks for a file's modification / access / creation
+    time nor for SystemTime (a make-style 'target is newer than its source, skip it' shortcut makes the result depend on the history of
+    the directory instead of on the sources); Instant (progress display throttling) is not a clock of that kind"""
+    lib = ctx.lib
+    n = 0
+    for (b, kind, bb, names, obj) in C.all_mentions(lib, lambda ns: any(TIME_APIS.match(x or "") for x in ns)):
+        n += 1
+        ctx.violation([b.name, "timestamp", names[0]], "%s is used in %s: generated content or the decision to (re)generate must not depend on "
+                      "timestamps" % (names[0], b.name), site=ctx.site(b, bb))
+    if n == 0:
+        ctx.ok("no timestamp / wall-clock API is mentioned in the library")
